@@ -1,2 +1,263 @@
 #![allow(warnings, clippy::all, clippy::pedantic, clippy::nursery)]
+//@ module: chunker::rabin
 use super::*;
+use crate::error::verif_harness as vh;
+use std::io::{self, Read};
+
+pub(crate) const POLY: u64 = 0x003D_A335_8B4D_C173; // restic/rustic default polynomial, degree 53
+const WINDOW: usize = 64;
+
+/// Reader over a symbolic byte array.  Every call returns a *symbolic* number
+/// 1..=min(avail, buf.len()) of bytes, or (at most `intr` times) ErrorKind::Interrupted,
+/// so read fragmentation is a solver variable.
+pub(crate) struct FragReader<const N: usize, const INTR: bool> {
+    pub data: [u8; N],
+    pub len: usize,
+    pub pos: usize,
+    pub intr: u8,
+}
+impl<const N: usize, const INTR: bool> Read for FragReader<N, INTR> {
+    fn read(&mut self, buf: &mut [u8]) -> io::Result<usize> {
+        let avail = self.len - self.pos;
+        if avail == 0 || buf.is_empty() {
+            return Ok(0);
+        }
+        if INTR && self.intr > 0 && kani::any() {
+            self.intr -= 1;
+            return Err(io::Error::from(io::ErrorKind::Interrupted));
+        }
+        let max = avail.min(buf.len());
+        let n: usize = kani::any();
+        kani::assume(n >= 1 && n <= max);
+        buf[..n].copy_from_slice(&self.data[self.pos..self.pos + n]);
+        self.pos += n;
+        Ok(n)
+    }
+}
+
+/// p mod POLY for deg(p) <= 60, by shift-and-subtract (no tables, no rolling)
+fn polymod61(mut p: u64) -> u64 {
+    let mut d = 60;
+    while d >= 53 {
+        if (p >> d) & 1 == 1 {
+            p ^= POLY << (d - 53);
+        }
+        d -= 1;
+    }
+    p
+}
+
+/// direct polynomial remainder of a byte string (most significant byte first)
+fn fingerprint(bytes: &[u8]) -> u64 {
+    let mut h = 0u64;
+    let mut i = 0;
+    while i < bytes.len() {
+        h = polymod61((h << 8) | u64::from(bytes[i]));
+        i += 1;
+    }
+    h
+}
+
+/// Reference cut position for the chunk starting at `start` in data[..len]:
+/// first p >= start+min with fingerprint(window(p)) & (size-1) == 0, else start+max, else len.
+/// window(p) = last <=64 bytes of  data[start+min-64 .. start+min-1) ++ data[start+min .. p)
+/// (rustic's own window: the prefill consumes 63 bytes, the byte at start+min-1 is never hashed).
+/// SPAN = max - min (concrete), so every loop here has a concrete trip count.
+fn reference_cut<const N: usize, const SPAN: usize>(data: &[u8; N], len: usize, start: usize, size: usize, min: usize, max: usize) -> usize {
+    if len - start < min {
+        return len;
+    }
+    let mut s = [0u8; 160];
+    let mut k = 0;
+    while k < WINDOW - 1 {
+        s[k] = data[start + min - WINDOW + k];
+        k += 1;
+    }
+    let mut j = 0; // number of bytes slid in so far; candidate position p = start + min + j
+    while j <= SPAN {
+        let p = start + min + j;
+        if j == SPAN {
+            return p; // max size reached
+        }
+        let n = WINDOW - 1 + j;
+        let lo = if n > WINDOW { n - WINDOW } else { 0 };
+        let mut h = 0u64;
+        let mut i = 0;
+        while i < WINDOW {
+            if lo + i < n { h = polymod61((h << 8) | u64::from(s[lo + i])); }
+            i += 1;
+        }
+        if h & (size as u64 - 1) == 0 {
+            return p;
+        }
+        if p == len {
+            return len;
+        }
+        s[n] = data[p];
+        j += 1;
+    }
+    start + max
+}
+
+/// one chunk: checks non-empty / bounded / content-defined / lossless, returns new start
+fn check_chunk<const N: usize, const SPAN: usize>(v: &Vec<u8>, data: &[u8; N], len: usize, start: usize, size: usize, min: usize, max: usize) -> usize {
+    assert!(!v.is_empty());
+    assert!(v.len() <= max);
+    assert!(start + v.len() <= len);
+    let expect = reference_cut::<N, SPAN>(data, len, start, size, min, max);
+    assert!(start + v.len() == expect);
+    if start + v.len() < len {
+        assert!(v.len() >= min);
+    }
+    let mut i = 0;
+    while i < v.len() {
+        assert!(v[i] == data[start + i]);
+        i += 1;
+    }
+    start + v.len()
+}
+
+/// N < 2*min + something: at most two chunks; three calls of next() drain the iterator
+fn partition_check<const N: usize, const SPAN: usize, const INTR: bool>(size: usize, min: usize, max: usize, intr: u8, hint: usize) {
+    let rabin = Rabin64::new_with_polynom(6, &POLY);
+    let data: [u8; N] = kani::any();
+    let len: usize = kani::any();
+    kani::assume(len <= N);
+    let reader = FragReader::<N, INTR> { data, len, pos: 0, intr };
+    let mut it = ChunkIter::new(rabin, size, min, max, reader, hint).unwrap();
+    let mut start = 0usize;
+    let mut nchunks = 0usize;
+    let mut cut_before_max = false;
+    // call 1
+    match it.next() {
+        None => {}
+        Some(Ok(v)) => {
+            start = check_chunk::<N, SPAN>(&v, &data, len, start, size, min, max);
+            if start < len && v.len() < max { cut_before_max = true; }
+            nchunks += 1;
+            std::mem::forget(v);
+            // call 2
+            match it.next() {
+                None => {}
+                Some(Ok(v2)) => {
+                    start = check_chunk::<N, SPAN>(&v2, &data, len, start, size, min, max);
+                    nchunks += 1;
+                    std::mem::forget(v2);
+                    // call 3: N < 2*min, so the second chunk was the last
+                    let third = it.next();
+                    assert!(third.is_none());
+                    std::mem::forget(third);
+                }
+                Some(Err(e)) => { std::mem::forget(e); assert!(false, "chunker returned an error on a reader that never fails"); }
+            }
+        }
+        Some(Err(e)) => { std::mem::forget(e); assert!(false, "chunker returned an error on a reader that never fails"); }
+    }
+    assert!(start == len);
+    kani::cover!(nchunks == 2, "stream split into two chunks");
+    kani::cover!(cut_before_max, "a content-defined cut before max size");
+    kani::cover!(len == 0 && nchunks == 0, "empty stream yields no chunk");
+    std::mem::forget(it);
+}
+
+//@ harness: c06_rabin_partition_64_72
+//@ prop: C06
+//@ tier: quick
+//@ timeout: 1500
+//@ mem: 24
+//@ unwindset: calculate_out_table#0=64; calculate_out_table#1=258; calculate_mod_table#0=258; modulo#0=64
+//@ kernel: chunker::rabin::ChunkIter::{new,next}, check_rabin_params, rustic_cdc::Rabin64::{new_with_polynom,calculate_out_table,calculate_mod_table,reset_and_prefill_window,slide}, Polynom64::{modulo,degree}
+//@ bound: polynomial 0x3DA3358B4DC173; (avg,min,max)=(64,64,72); stream length symbolic 0..=76, every byte symbolic; every read returns a symbolic count 1..=min(avail,buf); size_hint 0; symbolic loops unwound 80, table loops 258/64
+//@ oracle: lossless (concatenation == stream), bounded (min<=len<=max except last; non-empty), content-defined: each cut == reference_cut computed by direct polynomial remainder over rustic's window, independent of fragmentation
+//@ outside: streams longer than 76 bytes; other polynomials; random_poly search
+#[kani::proof]
+#[kani::unwind(80)]
+#[kani::stub(std::backtrace::Backtrace::capture, crate::error::verif_harness::stub_backtrace_capture)]
+pub(crate) fn c06_rabin_partition_64_72() {
+    partition_check::<76, 8, false>(64, 64, 72, 0, 0);
+}
+
+//@ harness: c06_rabin_partition_64_80_interrupts
+//@ prop: C06
+//@ tier: thorough
+//@ timeout: 3400
+//@ mem: 20
+//@ unwindset: calculate_out_table#0=64; calculate_out_table#1=258; calculate_mod_table#0=258; modulo#0=64
+//@ kernel: as c06_rabin_partition_64_72
+//@ bound: (avg,min,max)=(64,64,80); stream 0..=120 symbolic bytes; symbolic fragmentation plus up to 2 ErrorKind::Interrupted results at symbolic points; size_hint usize::MAX; unwind 130
+//@ oracle: as c06_rabin_partition_64_72
+#[kani::proof]
+#[kani::unwind(130)]
+#[kani::stub(std::backtrace::Backtrace::capture, crate::error::verif_harness::stub_backtrace_capture)]
+pub(crate) fn c06_rabin_partition_64_80_interrupts() {
+    partition_check::<120, 16, true>(64, 64, 80, 2, usize::MAX);
+}
+
+/// look-ahead capacity scaled to LOOK bytes: the state after a short read
+const LOOK: usize = 24;
+
+//@ harness: c06_rabin_accepted_params_step
+//@ prop: C06 C18
+//@ tier: quick
+//@ timeout: 1500
+//@ mem: 16
+//@ unwindset: calculate_out_table#0=4; calculate_out_table#1=258; calculate_mod_table#0=258; modulo#0=64; EcoVec.*extend_from_slice#0=200
+//@ kernel: chunker::rabin::ChunkIter::next from an arbitrary valid iterator state, check_rabin_params
+//@ bound: (avg,min,max) symbolic with avg <= 64, max <= 72, constrained only by check_rabin_params(..).is_ok(); look-ahead buffer holds a symbolic number 0..=24 of unread symbolic bytes (state after any short read); remaining stream 0..=8 symbolic bytes with symbolic fragmentation; one call of next(); the Rabin64 instance is built with a 2-byte window (hash values are not the subject here, ChunkIter::next's own 64-byte slice is); unwind 76
+//@ oracle: one step from any valid state never panics (no underflow, no out-of-range slice), returns a chunk with 1..=max bytes made of exactly the next unread bytes (>= min unless the stream ended), or None only when nothing is left to read
+//@ assume: iterator state invariant pos <= buf.len() <= BUF_SIZE (established by new() and preserved by next()); parameters accepted by check_rabin_params
+//@ outside: parameter values above 72 (same arithmetic); the 4 KiB buffer is represented by fills up to 24 (> minimum sizes below 24)
+#[kani::proof]
+#[kani::unwind(76)]
+#[kani::stub(std::backtrace::Backtrace::capture, crate::error::verif_harness::stub_backtrace_capture)]
+#[kani::stub(alloc::fmt::format, crate::error::verif_harness::stub_format)]
+pub(crate) fn c06_rabin_accepted_params_step() {
+    let size: usize = kani::any();
+    let min: usize = kani::any();
+    let max: usize = kani::any();
+    kani::assume(size <= 64 && min <= 64 && max <= 72);
+    let ok = check_rabin_params(size, min, max);
+    let accepted = ok.is_ok();
+    std::mem::forget(ok);
+    kani::assume(accepted);
+    const N: usize = 8;
+    let data: [u8; N] = kani::any();
+    let len: usize = kani::any();
+    kani::assume(len <= N);
+    let look: [u8; LOOK] = kani::any();
+    let fill: usize = kani::any();
+    let pos: usize = kani::any();
+    kani::assume(fill <= LOOK && pos <= fill);
+    let rabin = Rabin64::new_with_polynom(1, &POLY);
+    let mut it = ChunkIter::new(rabin, size, min, max, FragReader::<N, false> { data, len, pos: 0, intr: 0 }, 0).unwrap();
+    // arbitrary valid look-ahead state: buf = look[..fill], unread part = look[pos..fill]
+    let mut buf = Vec::with_capacity(LOOK);
+    buf.extend_from_slice(&look);
+    buf.truncate(fill);
+    it.buf = buf;
+    it.pos = pos;
+    let unread = fill - pos;
+    kani::cover!(min < 64 && unread + len >= min, "minimum size below the 64-byte window, enough data");
+    kani::cover!(unread > min, "more look-ahead bytes than the minimum size");
+    kani::cover!(min == 64 && unread < min && unread > 0, "ordinary state");
+    match it.next() {
+        None => assert!(unread == 0 && len == 0),
+        Some(Ok(v)) => {
+            assert!(!v.is_empty());
+            assert!(v.len() <= max);
+            assert!(v.len() <= unread + len);
+            // content: first the unread look-ahead bytes, then the stream
+            let mut i = 0;
+            while i < v.len() {
+                let expect = if i < unread { look[pos + i] } else { data[i - unread] };
+                assert!(v[i] == expect);
+                i += 1;
+            }
+            if v.len() < unread + len { assert!(v.len() >= min); }
+            kani::cover!(true, "a chunk was produced");
+            std::mem::forget(v);
+        }
+        Some(Err(e)) => { std::mem::forget(e); assert!(false); }
+    }
+    std::mem::forget(it);
+}
